@@ -345,7 +345,62 @@ func execC19(t *testing.T, plan any, r *simkit.Run) {
 			}
 			synctest.Wait()
 			got := w.observe(rn)
-			if got.chain() != pre.chain() && got.chain() != post.chain() {
+			if os.Getenv("VERIF_DEBUG") != "" {
+				st := rn.Store.GetStoreStatus()
+				fmt.Fprintf(os.Stderr, "DEBUG k=%d restart: statusBest=%s casperBest=%s got.Best=%s pre=%s post=%s\n", k, w.name(*st.Hash), w.name(rn.Chain.Casper().BestChain()), got.Best, pre.Best, post.Best)
+			}
+			intermediate := false
+			if got.chain() != pre.chain() && got.chain() != post.chain() && j > 0 {
+				// One event may connect several blocks (a parent releasing waiting orphans). A stop in the
+				// middle may durably have connected a prefix of them: that is the state of a crash-free node
+				// that received those blocks one by one. Accept it iff the restarted best block lies on the
+				// path from the old to the new best block and the ledger/index are exactly that chain's.
+				var gb *model.BlockState
+				for _, h := range w.Order {
+					if w.name(h) == got.Best {
+						gb = w.Tree.Nodes[h]
+					}
+				}
+				var pb, qb *model.BlockState
+				for _, h := range w.Order {
+					if w.name(h) == pre.Best {
+						pb = w.Tree.Nodes[h]
+					}
+					if w.name(h) == post.Best {
+						qb = w.Tree.Nodes[h]
+					}
+				}
+				if gb != nil && pb != nil && qb != nil && model.IsAncestor(gb, qb) {
+					// the restarted best block lies on the chain the event ends on: accept iff it is exactly what
+					// the fork-choice rule selects over the blocks that are durably stored, with that chain's ledger and index
+					ctx2 := fmt.Sprintf("restart after crash %s at intermediate block %s", what, got.Best)
+					// fork choice on a scratch recorder: a mismatch here is the known class "a block that is
+					// stored but was never handed to the finality engine is not reconsidered after restart"
+					scratch := simkit.NewScratchRun(r.Prop)
+					w.R = scratch
+					oo := &Observer{W: w, N: rn, Or: ObsOracles{C10: true, C11: true}, lastBest: gb.Hash}
+					oo.checkForkChoice(ctx2, gb)
+					w.R = r
+					if _, det := scratch.Violation(); det != "" {
+						r.Violate("restart-state", "stored-block-not-reconsidered", "%s", det)
+						return
+					}
+					oo.W = w
+					oo.checkLedger(ctx2, gb)
+					if r.Failed() {
+						return
+					}
+					var idx []string
+					for _, st := range model.MainChain(gb) {
+						idx = append(idx, w.name(st.Hash))
+					}
+					if strings.Join(idx, ",") == got.Index {
+						intermediate = true
+						r.Count("probe.restart_at_intermediate_block", 1)
+					}
+				}
+			}
+			if got.chain() != pre.chain() && got.chain() != post.chain() && !intermediate {
 				r.Violate("restart-state", "chain/"+evKind, "crash %s (boundary %d): restarted node has best=%s index=[%s] utxo=%s; crash-free node had before the event best=%s index=[%s] utxo=%s and after it best=%s index=[%s] utxo=%s",
 					what, k, got.Best, got.Index, got.Utxo, pre.Best, pre.Index, pre.Utxo, post.Best, post.Index, post.Utxo)
 				return
@@ -355,7 +410,10 @@ func execC19(t *testing.T, plan any, r *simkit.Run) {
 					what, k, got.Fin, pre.Fin, post.Fin)
 				return
 			}
-			if got.Just != pre.Just && got.Just != post.Just {
+			// A finalized checkpoint is justified by definition: when the justified child recorded by the
+			// interrupted event is not yet on disk as a block, "last justified = last finalized" is the
+			// consistent reading of what is durable, not a state of its own.
+			if got.Just != pre.Just && got.Just != post.Just && got.Just != got.Fin {
 				r.Violate("restart-state", "justified/"+evKind, "crash %s (boundary %d): restarted node reports last justified %s; crash-free node reported %s before and %s after the event",
 					what, k, got.Just, pre.Just, post.Just)
 				return
@@ -386,6 +444,21 @@ func execC19(t *testing.T, plan any, r *simkit.Run) {
 				if storedNotConnected && end.Fin == final.Fin && end.Just == final.Just {
 					attr = "stored-block-not-reconsidered"
 				}
+				if attr == evKind && end.Fin == final.Fin && end.Just == final.Just {
+					// same known class, seen from the other side: the restarted node's best block is not what the
+					// fork-choice rule selects over the blocks it has stored, because a block that was already on
+					// disk at the crash point was skipped as "already processed" when it was delivered again
+					if eb := w.Tree.Nodes[rn.Best()]; eb != nil {
+						scratch := simkit.NewScratchRun(r.Prop)
+						w.R = scratch
+						oo := &Observer{W: w, N: rn, Or: ObsOracles{C11: true}, lastBest: eb.Hash}
+						oo.checkForkChoice("re-delivery", eb)
+						w.R = r
+						if sig, _ := scratch.Violation(); strings.HasSuffix(sig, "/fork-choice") {
+							attr = "stored-block-not-reconsidered"
+						}
+					}
+				}
 				r.Violate("redelivery-diverges", attr, "crash %s (boundary %d), restart, re-delivery of the history: best=%s fin=%s just=%s utxo=%s statuses[%s]; crash-free run ends with best=%s fin=%s just=%s utxo=%s statuses[%s]; errors during re-delivery: %v",
 					what, k, end.Best, end.Fin, end.Just, end.Utxo, statusStr(end.Status), final.Best, final.Fin, final.Just, final.Utxo, statusStr(final.Status), redErrs)
 				return
@@ -410,7 +483,7 @@ func SpecC19() simkit.Spec {
 			"distinct = hash of the crash-free trace; every run is non-trivial (>= 1 boundary checked)",
 		Components:  nodeComponents,
 		FaultKinds:  []string{"fault.crash_restart"},
-		Probes:      []string{"probe.crash_inside_reorg", "probe.finality_reached", "events.vote"},
+		Probes:      []string{"probe.crash_inside_reorg", "probe.finality_reached", "events.vote", "probe.restart_at_intermediate_block"},
 		Assumptions: []string{"durability model as the property states: each Set/Delete/batch commit is atomic and durable, nothing later survives", "simdisk is a stub of the storage engine (its equivalence with goleveldb is C20's subject)"},
 	}
 }
